@@ -102,6 +102,16 @@ def deflate_reply():
     return httpref.canonical_spec(extensions=["permessage-deflate"])
 
 
+def extension_context(deflate):
+    """deflate: 0/False = not offered, 1/True = offered and accepted, 2 = offered by the client but
+    declined by the server (no Sec-WebSocket-Extensions in the reply: RSV1 stays reserved).
+    Returns (negotiated, reply spec, ws_opts, refmodel configuration)."""
+    d = int(deflate)
+    negotiated = d == 1
+    return (negotiated, deflate_reply() if negotiated else None, {"compress": True} if d else None,
+            {"server_nct": False} if negotiated else None)
+
+
 def check_violation_trace(tr, model, labels, nontrivial, expect_messages=True):
     """The five clauses of C04 for one trace, given the reference reading."""
     names = tr.names()
@@ -170,8 +180,8 @@ class C04(Prop):
     id = "C04"
     level = "exploration"
     rule = ("(a) exhaustive: every one of the 65536 two-byte frame headers, completed with the extended length / "
-            "masking key / payload it announces, in 4 contexts (permessage-deflate negotiated or not x at message "
-            "start or inside an unfinished text message), each followed by a sentinel frame; lomond's verdict and "
+            "masking key / payload it announces, in 6 contexts (permessage-deflate not offered / negotiated / offered by the client but declined by the "
+            "server x at message start or inside an unfinished text message), each followed by a sentinel frame; lomond's verdict and "
             "delivered events vs the reference reading of RFC 6455 (harness/refmodel.py). (b) Hypothesis: conforming "
             "prefix + optional unfinished message + one violating frame of a drawn class + conforming suffix, any read "
             "segmentation, client optionally already closing. Non-trivial = a message event precedes the violation and "
@@ -195,14 +205,14 @@ class C04(Prop):
             "viol": viol,
             "suffix": suffix,
             "seg": gen.segmentation(),
-            "deflate": st.booleans(),
+            "deflate": st.sampled_from([0, 0, 1, 1, 2]),
             "client_closing": gen.weighted([(5, st.just(False)), (1, st.just(True))]),
         })
 
     def build_stream(self, case):
         v = dict(case["viol"])
         cls = v["class"]
-        deflate = case["deflate"]
+        deflate = int(case["deflate"]) == 1
         open_kind = case["open"]
         if cls in NEEDS_OPEN and not open_kind:
             open_kind = "text"
@@ -235,14 +245,13 @@ class C04(Prop):
             return self.run_header(case)
         if "stream" in case:
             return self.run_stream(case)
-        if case["viol"]["class"] == "text_bad_utf8_nonfinal_fragment" and case["deflate"]:
+        if case["viol"]["class"] == "text_bad_utf8_nonfinal_fragment" and int(case["deflate"]) == 1:
             # with the extension negotiated lomond reads text unvalidated until the message ends
             # (not demanded, see DESIGN.md C05): this class is exercised on plain connections
-            case = dict(case, deflate=False)
+            case = dict(case, deflate=0)
         data, viol_at, built = self.build_stream(case)
-        deflate = case["deflate"]
-        model = refmodel.interpret(data, {"server_nct": False} if deflate else None)
-        reply = deflate_reply() if deflate else None
+        deflate, reply, ws_opts, mcfg = extension_context(case["deflate"])
+        model = refmodel.interpret(data, mcfg)
         reply_len = len(httpref.build_reply(reply, b""))
         seg = effective_seg(case["seg"], reply_len + len(data))
         reactions = []
@@ -250,9 +259,9 @@ class C04(Prop):
             reactions.append({"when": ["event", "ready", 0], "do": [["close", 1000, "bye"]]})
         scn = build.scenario(
             [["wait_request"], ["stream", [["reply", reply], ["bytes", data]], seg, 0.0], ["eof", 0.0]],
-            ws_opts={"compress": True} if deflate else None, reactions=reactions)
+            ws_opts=ws_opts, reactions=reactions)
         tr = simnet.run_scenario(scn)
-        labels = {"class:" + str(model.violation), "deflate" if deflate else "plain"}
+        labels = {"class:" + str(model.violation), ["plain", "deflate", "deflate_offered_declined"][int(case["deflate"])]}
         if case["open"]:
             labels.add("inside_unfinished_message")
         if case.get("client_closing"):
@@ -290,12 +299,11 @@ class C04(Prop):
         """case = {"stream": hex of the bytes after the handshake reply, "deflate": bool, "seg": seg}:
         lomond's verdict and events against the reference reading, for any byte string."""
         data = bytes.fromhex(case["stream"])
-        deflate = bool(case.get("deflate"))
-        model = refmodel.interpret(data, {"server_nct": False} if deflate else None)
-        reply = deflate_reply() if deflate else None
+        deflate, reply, ws_opts, mcfg = extension_context(case.get("deflate") or 0)
+        model = refmodel.interpret(data, mcfg)
         scn = build.scenario(
             [["wait_request"], ["stream", [["reply", reply], ["bytes", data]], case.get("seg", "whole"), 0.0], ["eof", 0.0]],
-            ws_opts={"compress": True} if deflate else None)
+            ws_opts=ws_opts)
         tr = simnet.run_scenario(scn)
         labels = {"stream:" + (model.violation or ("unspecified" if model.unspecified else
                                                    ("incomplete" if model.incomplete else "accepted")))}
@@ -330,7 +338,7 @@ class C04(Prop):
     EXT64 = [0, 125, 126, 65535, 65536, (1 << 63) - 1, 1 << 63, (1 << 64) - 1]
 
     def header_cases(self):
-        for deflate in (0, 1):
+        for deflate in (0, 1, 2):
             for inside in (0, 1):
                 for b0 in range(256):
                     for b1 in range(256):
@@ -345,11 +353,12 @@ class C04(Prop):
                             yield {"hdr": [b0, b1], "ext": ext, "ctx": [deflate, inside]}
 
     def enumerations(self, tier):
-        return [Enumeration("all_65536_headers_x4_contexts", self.header_cases, exhaustive=True)]
+        return [Enumeration("all_65536_headers_x6_contexts", self.header_cases, exhaustive=True)]
 
     def run_header(self, case):
         b0, b1 = case["hdr"]
-        deflate, inside = case["ctx"]
+        ctx_deflate, inside = case["ctx"]
+        deflate, reply, ws_opts, mcfg = extension_context(ctx_deflate)
         ext = case["ext"]
         opcode = b0 & 15
         rsv1 = (b0 >> 6) & 1
@@ -384,11 +393,10 @@ class C04(Prop):
         # non-final fragment, the message is completed and would be delivered
         suffix = wire.build_frame(wire.CONT, b"-fin") + wire.build_frame(wire.BINARY, SUFFIX_SENTINEL)
         data = prefix + head + body + (b"" if truncated else suffix)
-        model = refmodel.interpret(data, {"server_nct": False} if deflate else None)
-        reply = deflate_reply() if deflate else None
+        model = refmodel.interpret(data, mcfg)
         scn = build.scenario(
             [["wait_request"], ["stream", [["reply", reply], ["bytes", data]], "whole", 0.0], ["eof", 0.0]],
-            ws_opts={"compress": True} if deflate else None)
+            ws_opts=ws_opts)
         tr = simnet.run_scenario(scn)
         labels = {"hdr:" + (model.violation or ("unspecified" if model.unspecified else "accepted"))}
         nontrivial = bool(model.violation) or bool(inside)
